@@ -592,10 +592,16 @@ static Token *paste_objlike(Token *tok) {
   return head.next;
 }
 
+// True if the variable argument has any tokens once it is fully
+// macro-expanded; __VA_OPT__ looks at the expanded argument.
 static bool has_varargs(MacroArg *args) {
-  for (MacroArg *ap = args; ap; ap = ap->next)
-    if (ap->is_va_args)
-      return ap->tok->kind != TK_EOF;
+  for (MacroArg *ap = args; ap; ap = ap->next) {
+    if (!ap->is_va_args)
+      continue;
+    if (!ap->expanded)
+      ap->expanded = preprocess2(append(ap->tok, new_eof(ap->tok)));
+    return ap->expanded->kind != TK_EOF;
+  }
   return false;
 }
 
@@ -714,11 +720,19 @@ static Token *subst(Token *tok, MacroArg *args) {
     // If __VA_ARG__ is empty, __VA_OPT__(x) is expanded to the
     // empty token list. Otherwise, __VA_OPT__(x) is expanded to x.
     if (equal(tok, "__VA_OPT__") && equal(tok->next, "(")) {
+      Token *start = tok;
       MacroArg *arg = read_macro_arg_one(&tok, tok->next->next, true);
       // Parameters inside __VA_OPT__(...) are replaced as everywhere else.
-      if (has_varargs(args))
+      // The result takes the place, and the white space, of __VA_OPT__.
+      if (has_varargs(args)) {
+        Token *prev = cur;
         for (Token *t = subst(arg->tok, args); t->kind != TK_EOF; t = t->next)
           cur = cur->next = t;
+        if (prev != cur) {
+          prev->next->at_bol = false;
+          prev->next->has_space = start->has_space;
+        }
+      }
       tok = skip(tok, ")");
       continue;
     }
